@@ -23,6 +23,14 @@ const (
 	tagNilIface
 )
 
+// names usable in contracts
+var ghostTags = map[string]int{"tagOther": tagOther, "tagString": tagString, "tagHTML": tagHTML, "tagScript": tagScript, "tagStyle": tagStyle,
+	"tagStyleSheet": tagStyleSheet, "tagURL": tagURL, "tagTrustedResourceURL": tagTrustedResourceURL, "tagIdentifier": tagIdentifier,
+	"tagURLSet": tagURLSet, "tagNilIface": tagNilIface, "tagPtrBase": tagPtrBase}
+
+// tagPtrBase + t is the tag of a non-nil pointer to a value of tag t (t in 1..9)
+const tagPtrBase = 20
+
 var safeTypeTags = map[string]int{
 	"HTML": tagHTML, "Script": tagScript, "Style": tagStyle, "StyleSheet": tagStyleSheet, "URL": tagURL,
 	"TrustedResourceURL": tagTrustedResourceURL, "Identifier": tagIdentifier, "URLSet": tagURLSet,
@@ -121,6 +129,12 @@ func (fx *FuncCtx) heapMapLen(m VHeapMap) Term {
 }
 
 func (e *Ev) evHeapGhost(name string, x *ast.CallExpr) (Val, bool) { return nil, false }
+
+// VRangeTable is a package-level *unicode.RangeTable given by its ranges (stride 1).
+type VRangeTable struct {
+	Name   string
+	Ranges [][2]int64
+}
 
 func (e *Ev) evModelledMethod(x *ast.CallExpr, sel *ast.SelectorExpr, fn *types.Func) (Val, bool) {
 	// methods on package-level regexps
